@@ -88,7 +88,8 @@ def wrapper(f, records):
     if r[0] is None:
         return None, [r[1]]
     clauses = list(r[0])
-    clauses.append(('category_ok(i)', 'the node carries the category code of its own interface class'))
+    if 'ipr::Node' in F.bases_of(records, r[3]):
+        clauses.append(('i.category == ipr::Category_code::%s' % r[3].split('::')[-1], 'the node carries the category code named like its own interface class'))
     ps = list(f['params']); names = ['a%d' % k for k in range(len(ps))]
     t = 'unsigned c02_%s(%s& f%s, const void** out)\n{\n' % (f['cid'], f['cls'], ''.join(', %s %s' % (p, a) for p, a in zip(ps, names)))
     t += '   const auto& n = deref(f.%s(%s)); *out = &n;\n   const %s& i = n;      // the interface class a client sees\n   unsigned bad = 0;\n' % (f['name'], ', '.join(names), r[3])
